@@ -61,6 +61,18 @@ class C10(Prop):
                 for mode in ('rw', 'ro', 'ow'):
                     for force in (0, 1):
                         cases.append(Case('open %d %d %d %s %d %s' % (v + (mode, force, d)), 'open-defect'))
+        # header defects that are ALMOST right: format strings around "nix", a missing id across the versions around 1.2.0
+        def hx(b):
+            return 's:' + b.hex()
+        for fmt in (b'nix', b'nixx', b'nix2', b'nixio', b'nix ', b' nix', b'NIX', b'Nix', b'ni', b'n', b'', b'xnix', b'nix\xc3\xa4', b'hdf5'):
+            for v in [(1, 2, 0), (1, 1, 0), (1, 0, 0)]:
+                for mode in ('rw', 'ro', 'ow'):
+                    for force in (0, 1):
+                        cases.append(Case('open %d %d %d %s %d fmt=%s' % (v + (mode, force, hx(fmt))), 'open-format'))
+        for v in [(1, 2, 0), (1, 2, 1), (1, 2, 5), (1, 2, INT_MAX), (1, 1, 0), (1, 1, 9), (1, 0, 0), (1, 2, -1), (1, 3, 0), (0, 9, 9), (2, 0, 0)]:
+            for mode in ('rw', 'ro', 'ow'):
+                for force in (0, 1):
+                    cases.append(Case('open %d %d %d %s %d noid' % (v + (mode, force)), 'open-noid'))
         if scale > 1:
             for _ in range(2000 * scale):
                 a = tuple(rnd.choice([rnd.randint(-5, 5), rnd.choice([INT_MIN, INT_MAX, 0, 1, 2])]) for _ in range(3))
